@@ -213,6 +213,10 @@ class MemOrchestrator(BaseOrchestrator):
         """Registers new invocations and sets them to REGISTERED status."""
         status_record = InvocationStatusRecord(InvocationStatus.REGISTERED, runner_id)
         for invocation in invocations:
+            if invocation.invocation_id in self.invocation_status_record:
+                # Already registered: keep its status, owner and retry count
+                # (same as the SQLite backend's ON CONFLICT DO NOTHING)
+                continue
             self._interanl_atomic_status_transition(
                 invocation.invocation_id, None, status_record
             )
